@@ -61,4 +61,25 @@ theorem tie_changeSetsSkeleton : changeSetsSkeleton =
      "go", "func {", "for {", "go", "func {", "for {", "call bal.balanceBlock", "}", "}", "}", "}",
      "call bal.collectStatistics"] := rfl
 
+/-- Python SDK `_service_weight`: md5(data_hash + service_uuid[-15:]) (Model.C12_Py `pyWeight` / `pyUuidSuffix`). -/
+theorem tie_pyWeight : pyWeightLines =
+    ["return hashlib.md5((data_hash + service_uuid[-15:]).encode()).hexdigest()"] := rfl
+
+/-- Python SDK `weighted_service_roots`, hint loop (Model.C12_Py `pyHintRoots`, `pyProxyURL`). -/
+theorem tie_pyHints : pyHintLines =
+    ["if hint.startswith('K@'):", "if len(hint) == 7:",
+     "\"https://keep.{}.arvadosapi.com/\".format(hint[2:]))",
+     "elif len(hint) == 29:", "svc = self._gateway_services.get(hint[2:])"] := rfl
+
+/-- Python SDK: stable descending sort of the keep / writable services by `_service_weight` of the
+locator's md5sum and the service uuid (Model.C12_Py `pyOrder`). -/
+theorem tie_pySort : pySortLines =
+    ["use_services = self._keep_services", "use_services = self._writable_services", "reverse=True,",
+     "key=lambda svc: self._service_weight(locator.md5sum, svc['uuid']))])"] := rfl
+
+/-- The documented rule (doc/architecture/keep-clients.html.textile.liquid): the one paragraph that
+states the weight and the sort, verbatim. `C12_doc` is the model's statement of it. -/
+theorem tie_docRule : docRuleLines =
+    ["Each @keep_service@ resource has an assigned uuid.  To determine priority assignments of blocks to servers, for each keep service compute the MD5 sum of the string concatenation of the block locator (hex-coded hash part only) and service uuid, then sort this list in descending order.  Blocks are preferentially placed on servers with the highest weight."] := rfl
+
 end ArvVerif.Tie.C12
